@@ -155,6 +155,12 @@ class GCoord:
         raise Unsupported(f"coordinate attribute {name} of an abstract point (group-level code must go through "
                           f"the curve functions' contracts)")
 
+    def sym_type(self, interp):
+        cc = self.pt.grp.coord_cls
+        if cc is None:
+            raise Unsupported("type() of a coordinate of an abstract point whose field class is not fixed")
+        return cc
+
     def sym_isinstance(self, interp, t):
         from .interp import ClassVal
         cc = self.pt.grp.coord_cls
